@@ -160,4 +160,7 @@ example : find .sensitive [0x61, 0, 0x62] 0 (.cstr (some [0x61, 0, 0x63])) = 0 :
 example : find .insensitive [0x41, 0x42, 0x43] 0 (.str [0x62, 0x63]) = 1 := by decide
 example : occursAt .insensitive [0x41, 0x42, 0x43] [0x62, 0x63] 1 := by decide
 
+/-- the byte hypotheses of `starts_with_iff` / `affix_forms_agree` are satisfiable (any byte values, NUL and ≥ 0x80 included) -/
+example : Bytes [0x00, 0x41, 0x80, 0xFF] ∧ Bytes (Affix.text (.cstr (some [0x61, 0x00, 0x62]))) := by decide
+
 end StVerif.Props.C07
